@@ -3,7 +3,9 @@
 Correspondence with lean/EdzedModel/Fsm.lean (buildTables, ctxEvent) + an independent reference
 interpreter of the documented rules (docs/FSM.rst) as the oracle.
 """
+import gc
 import itertools
+import sys
 
 import edzed
 
@@ -12,11 +14,11 @@ from ..simrun import Sim
 
 ID = 'C03'
 RULE = ("dynamically created FSM classes run in a real circuit (simulator task on the virtual-time loop), one "
-        "fresh circuit per event sequence. Tables: EVERY table over <=2 states x <=2 events and 3 states x 1 event "
+        "fresh class, circuit and block per event sequence (a scenario is one definition with 1..243 sequences). Tables: EVERY table over <=2 states x <=2 events and 3 states x 1 event "
         "(each cell: no rule / None target / each state, for the any-state rule and for every state) -- bare with "
         "all sequences of length 3 and fully instrumented (cond/enter/exit as method AND instance callback on every "
         "event/state, conditions reading the per-event data item 'ok') with ALL sequences of length 5 over "
-        "{events, unknown event} (thorough; quick: a seed-dependent 4% sample of the tables); thorough adds every "
+        "{events, unknown event} (thorough; quick: a seed-dependent 3% sample of the tables); thorough adds every "
         "table over 3 states x 2 events (390625) with one Goto-driven sequence visiting every (state, event) "
         "cell; random machines (1..6 states, 1..4 events, list and 'a | b' from-state notation, duplicates and "
         "unknown states in the tables, timed states with zero/other duration, calc_output maps with equal and "
@@ -228,14 +230,20 @@ def _kind(exc):
     return err_kind(exc)
 
 
-def run_impl(scn):
-    lines = [reset_line(scn)]
-    trace, steps, log, holder = [], [], [], {}
+def scn_runs(scn):
+    """the event sequences of a scenario; each one gets a fresh class, circuit and block"""
+    return scn['runs'] if 'runs' in scn else [scn.get('ops') or []]
+
+
+def run_one(scn, ops, lines, trace, tags):
+    """one event sequence on a fresh circuit; returns the list of steps, or None if the class was refused"""
+    lines.append(reset_line(scn))
+    steps, log, holder = [], [], {}
     try:
         cls, kwargs = build_class(scn, log, holder)
     except ValueError:
-        return {'lines': lines, 'trace': ['err ValueError'], 'steps': [], 'build_error': 'ValueError',
-                'tags': ['build=ValueError'], 'nontrivial': False}
+        trace.append('err ValueError')
+        return None
     sim = Sim()
 
     def build(circuit):
@@ -267,7 +275,7 @@ def run_impl(scn):
 
     async def drive(sim, f):
         record(None, 'ret', True)
-        for op in scn['ops']:
+        for op in ops:
             lines.append(op_line(op))
             et, data = op
             if et.startswith('>'):
@@ -290,10 +298,8 @@ def run_impl(scn):
             # the initial transition itself went through, the simulator refused the result
             record(None, 'ret', True)
             steps[-1]['sim_init_error'] = _kind(sim.init_error)
-    accepted = sum(1 for s in steps[1:] if s['res'] == 'ret b1')
-    tags = [f"states={len(scn['states'])}", f"ops={len(scn['ops'])}", f"fam={scn.get('fam', '?')}"]
     for s in steps:
-        tags.append('ev:' + s['res'])
+        tags.append(_TAG.setdefault(s['res'], 'ev:' + s['res']))
         ents = s['log']
         if sum(1 for x in ents if x.startswith('state:')) > 1:
             tags.append('ev:chained')
@@ -301,7 +307,24 @@ def run_impl(scn):
             tags.append('ev:notrans')
         if s['res'] == 'ret b0' and any(x.startswith('cond:') for x in ents):
             tags.append('ev:cond-rejected')
-    return {'lines': lines, 'trace': trace, 'steps': steps, 'tags': tags, 'nontrivial': accepted > 0}
+    return steps
+
+
+_TAG = {}
+
+
+def run_impl(scn):
+    lines, trace, runs = [], [], []
+    tags = [sys.intern(f"states={len(scn['states'])}"), sys.intern(f"fam={scn.get('fam', '?')}")]
+    for ops in scn_runs(scn):
+        steps = run_one(scn, ops, lines, trace, tags)
+        tags.append('runs')
+        if steps is None:
+            return {'lines': lines, 'trace': trace, 'runs': [], 'build_error': 'ValueError',
+                    'tags': tags + ['build=ValueError'], 'nontrivial': False}
+        runs.append(steps)
+    accepted = sum(1 for steps in runs for s in steps[1:] if s['res'] == 'ret b1')
+    return {'lines': lines, 'trace': trace, 'runs': runs, 'tags': tags, 'nontrivial': accepted > 0}
 
 
 # ------------------------------------------------------------------ oracle: reference interpreter
@@ -446,7 +469,6 @@ def _sig(scn, step):
 
 
 def oracle(scn, res):
-    steps = res['steps']
     out = []
     if res.get('build_error'):
         # class creation refused: legitimate only for a defective table
@@ -455,6 +477,18 @@ def oracle(scn, res):
         return out
     if table_defect(scn):
         return [{'clause': 'build_tables', 'what': f'defective tables accepted: {table_defect(scn)}'}]
+    for nrun, steps in enumerate(res['runs']):
+        out = oracle_run(scn, steps)
+        if out:
+            if len(res['runs']) > 1:
+                for v in out:
+                    v['what'] = f'sequence #{nrun}: ' + v['what']
+            return out
+    return []
+
+
+def oracle_run(scn, steps):
+    out = []
     ref = Ref(scn)
     for i, step in enumerate(steps):
         op = step['op']
@@ -483,6 +517,17 @@ def oracle(scn, res):
                     out.append({'clause': 'flags_released', 'what': f'{where}: _next_event left set'})
                     break
                 continue                   # unknown top-level event: nothing happened, go on
+            # what was done before the exception is determined as well
+            nset = sum(1 for x in step['log'] if x.startswith('state:'))
+            if nset > ref.limit:
+                out.append({'clause': 'chain_bounded',
+                            'what': f'{where}: {nset} states entered by one event, the limit is {ref.limit}'})
+            elif step['log'] != [_fmt(e) for e in ref.log]:
+                want = [_fmt(e) for e in ref.log]
+                same_actions = [_strip_data(x) for x in step['log']] == [_strip_data(x) for x in want]
+                out.append({'clause': 'action_reads_causing_event' if same_actions else 'action_order',
+                            'what': f"{where}: before the exception: {step['log']}, expected {want}",
+                            'sig': _sig(scn, step)})
             break                          # no claims after an error
         if step['next']:
             out.append({'clause': 'flags_released', 'what': f'{where}: _next_event left set'})
@@ -723,40 +768,82 @@ def gen_chain(rng):
     return scn
 
 
+_SEQ_CACHE = {}
+
+
+def all_sequences(alpha, length, okbits=None):
+    """all event sequences of that length (shared objects: the same lists serve every table)"""
+    key = (tuple(alpha), length, okbits)
+    if key not in _SEQ_CACHE:
+        runs = []
+        for seq in itertools.product(alpha, repeat=length):
+            if okbits is None:
+                runs.append([[et, {'tag': f't{i}'}] for i, et in enumerate(seq)])
+            else:
+                runs.append([[et, ev_data(i, okbits + i * (1 + len(et)))] for i, et in enumerate(seq)])
+        _SEQ_CACHE[key] = runs
+    return _SEQ_CACHE[key]
+
+
+def more_runs(rng, scn, allst, events, k):
+    """further event sequences for the same machine"""
+    runs = [scn.pop('ops')]
+    for _ in range(k):
+        ops = []
+        for i in range(rng.randint(1, 5)):
+            r = rng.random()
+            et = rng.choice(events) if r < 0.8 else UNKNOWN if r < 0.9 else '>' + rng.choice(allst)
+            ops.append([et, rnd_data(rng, i)])
+        runs.append(ops)
+    scn['runs'] = runs
+    return scn
+
+
 def scenarios(rng, tier):
     quick = tier == 'quick'
-    # 1. exhaustive tables
+    # 1. exhaustive tables, every event sequence; one scenario = one table with all its sequences
     for ns, ne in ((1, 1), (1, 2), (2, 1), (2, 2), (3, 1)):
         alpha = EN[:ne] + [UNKNOWN]
         for states, events, rules in all_tables(ns, ne):
-            if quick and rng.random() >= 0.04:
+            if quick and rng.random() >= 0.03:
                 continue
             base = {'states': states, 'rules': rules, 'initdef': states[0]}
-            for seq in itertools.product(alpha, repeat=3):
-                yield {**base, 'fam': 'bare', 'ops': [[et, {'tag': f't{i}'}] for i, et in enumerate(seq)]}
+            yield {**base, 'fam': 'bare', 'runs': all_sequences(alpha, 3)}
             inst = instrumented(states, sorted({r[0] for r in rules}))
-            okbits = rng.randrange(7)
-            for seq in itertools.product(alpha, repeat=5):
-                yield {**base, **inst, 'fam': 'instr',
-                       'ops': [[et, ev_data(i, okbits + i * (1 + len(et)))] for i, et in enumerate(seq)]}
+            yield {**base, **inst, 'fam': 'instr', 'runs': all_sequences(alpha, 5, rng.randrange(7))}
     # 2. 3 states x 2 events: every table, one covering sequence
+    cover = None
     for states, events, rules in all_tables(3, 2):
         if rng.random() >= (0.004 if quick else 1.0):
             continue
+        cover = cover or cover_sequence(states, events)
         yield {'states': states, 'rules': rules, 'initdef': states[0], 'fam': 'cover',
-               'exitM': ['A'], 'ops': cover_sequence(states, events)}
+               'exitM': ['A'], 'ops': cover}
     # 3. random machines, chains, larger machines
-    n = 9000 if quick else 250000
+    n = 8000 if quick else 80000
     for _ in range(n):
-        yield gen_random(rng)
+        scn = gen_random(rng)
+        allst = scn['states'] + [t[0] for t in scn.get('timers', []) if t[0] not in scn['states']]
+        yield more_runs(rng, scn, allst, EN[:3], rng.choice([0, 1, 2]))
     for _ in range(n // 3):
-        yield gen_chain(rng)
+        scn = gen_chain(rng)
+        yield more_runs(rng, scn, scn['states'], ['e0', 'e1'], rng.choice([0, 1]))
     for _ in range(n // 6):
         yield gen_random(rng, big=True)
+    # the list of scenarios is inherited by the forked workers: keep the garbage collector from
+    # touching (and thereby copying) it in every one of them
+    gc.collect()
+    gc.freeze()
 
 
 def shrink(scn):
-    ops = scn.get('ops') or []
+    runs = scn_runs(scn)
+    if len(runs) > 1:
+        for r in runs:
+            yield {**{k: v for k, v in scn.items() if k != 'runs'}, 'ops': r}
+        return
+    ops = runs[0]
+    scn = {**{k: v for k, v in scn.items() if k != 'runs'}, 'ops': ops}
     for i in reversed(range(len(ops))):
         yield {**scn, 'ops': ops[:i] + ops[i + 1:]}
     for key in ('condF', 'condM', 'enterF', 'enterM', 'outmap'):
